@@ -692,6 +692,70 @@ Proof.
   destruct (N.eqb x 1), (N.eqb x 2); reflexivity.
 Qed.
 
+(* ------------------------------------------------------------------ the descriptor cache never aliases translators *)
+Lemma ckey_eqb_eq a b : ckey_eqb a b = true <-> a = b.
+Proof.
+  destruct a as [a1 a2], b as [b1 b2]. unfold ckey_eqb. simpl.
+  rewrite andb_true_iff, !N.eqb_eq. split; [intros [-> ->]; reflexivity | intros H; inversion H; auto].
+Qed.
+
+Lemma cache_get_set_same {V} (c : list (ckey * V)) k v : cache_get (cache_set c k v) k = Some v.
+Proof.
+  unfold cache_set. simpl. destruct (ckey_eqb k k) eqn:E; auto.
+  assert (H : ckey_eqb k k = true) by (apply ckey_eqb_eq; reflexivity). congruence.
+Qed.
+
+Lemma cache_get_set_other {V} (c : list (ckey * V)) k k' v :
+  k <> k' -> cache_get (cache_set c k' v) k = cache_get c k.
+Proof.
+  intros Hne. unfold cache_set. simpl. destruct (ckey_eqb k k') eqn:E; auto.
+  apply ckey_eqb_eq in E. contradiction.
+Qed.
+
+(* storing a wrapper for one translator is invisible to every other translator,
+   whatever functions they wrap *)
+Theorem cache_no_alias {V} (c : list (ckey * V)) t t' f f' v :
+  t <> t' -> cache_get (cache_set c (t', f') v) (t, f) = cache_get c (t, f).
+Proof. intros Hne. apply cache_get_set_other. intro H. inversion H. contradiction. Qed.
+
+Definition coherent {V} (build : N -> N -> V) (c : list (ckey * V)) : Prop :=
+  forall k v, cache_get c k = Some v -> v = build (fst k) (snd k).
+
+Lemma desc_get_correct {V} (build : N -> N -> V) c t f :
+  coherent build c ->
+  fst (desc_get build c t f) = build t f /\ coherent build (snd (desc_get build c t f)).
+Proof.
+  intros Hc. unfold desc_get. destruct (cache_get c (t, f)) as [v|] eqn:E; simpl.
+  - split; auto. exact (Hc (t, f) v E).
+  - split; auto. intros k v Hk.
+    destruct (ckey_eqb k (t, f)) eqn:Ek.
+    + apply ckey_eqb_eq in Ek. subst k. rewrite cache_get_set_same in Hk. inversion Hk. reflexivity.
+    + rewrite cache_get_set_other in Hk.
+      * exact (Hc k v Hk).
+      * intro H. subst k. assert (H2 : ckey_eqb (t, f) (t, f) = true) by (apply ckey_eqb_eq; reflexivity).
+        congruence.
+Qed.
+
+Lemma desc_gets_correct {V} (build : N -> N -> V) h : forall c,
+  coherent build c ->
+  fst (desc_gets build c h) = map (fun tf => build (fst tf) (snd tf)) h.
+Proof.
+  induction h as [|[t f] h IH]; intros c Hc; simpl; auto.
+  destruct (desc_get_correct build c t f Hc) as [H1 H2].
+  rewrite H1, IH; auto.
+Qed.
+
+(* every lookup of every history returns the wrapper of ITS translator for the
+   function at hand: the order of earlier lookups, and other translators of the
+   same function, have no influence *)
+Theorem desc_history_independent {V} (build : N -> N -> V) h :
+  fst (desc_gets build [] h) = map (fun tf => build (fst tf) (snd tf)) h.
+Proof. apply desc_gets_correct. intros k v H. simpl in H. discriminate. Qed.
+
+Example desc_history_example :
+  fst (desc_gets (fun t f => t * 10 + f) [] [(1, 7); (2, 7); (1, 7); (2, 8)]) = [17; 27; 17; 28].
+Proof. reflexivity. Qed.
+
 Example call_positional_hyps_satisfiable :
   let pos := [mkParam 1 PK None None UEmpty; mkParam 2 PK (Some 102) None UEmpty;
               mkParam 3 PK None None UEmpty] in
